@@ -1,3 +1,5 @@
--- This module serves as the root of the `AmVerif` library.
--- Import modules here that should be built as part of the library.
-import AmVerif.Basic
+import AmVerif.Model.ListSet
+import AmVerif.Model.Schema
+import AmVerif.Model.Resolver
+import AmVerif.Model.Machine
+import AmVerif.Model.Driver
